@@ -1061,6 +1061,8 @@ for _k, _v in _WIDE.items():
 # sub-checks: flows modelled under another property, run (and reported) under this one as well
 CONFIG['C04']['also'] = ['C03', 'C13']   # typed parameters: what the handler gets for a number/integer text is C03's model (C04-m5); the response's way to the caller's reader is C13's (C04-m8)
 CONFIG['C01']['also'] = ['C09']   # the same dispatch under concurrent requests (shared lookup state) is C09's stream R / -race tier (C01-m7)
+CONFIG['C20']['rule'] += ' TITLE CLAUSE (round 9): on every page of a built-in template (streams M and H) the title shown — the text of the title element, un-escaped once by the harness — must be the title option (API title, or the default when empty): a value escaped twice fails like one not escaped (Spec specUITitle / specHandlerTitle; theorems ui_mw_page_title, handlerUIOpts_title, handler_meets_title_spec).'
+
 PENDING = {"C05DA"}   # C05DA is a sub-check of C05 ("also"), never claimed on its own
 NOT_APPLICABLE = {}
 HOOK_COMMITS = ["dd54fd898b621ffdd89b1e68324b7617730e9ca3"]
